@@ -16,6 +16,29 @@ REGISTRY = {
                          'BOUNDED (engine R): post-conditions of fit+transform on train and dev (label count, per-label frequency >= min_freq_mod, missing handling, same labels and '
                          'same rate ranking on dev) on the same frames as C01.',
              trusted=[]),
+ 'C03': dict(level='other', P=[ENUM], R=['rtc.battery_C03', 'rtc.c01_carver'],
+             explanation='PROVED: every grouping the carvers ever test is a contiguous partition of the ordered base modalities (enumerator soundness). BOUNDED: boundaries strictly '
+                         'increasing with +inf last, ordinal groups are consecutive runs of the user ranking, categorical leaders in target-rate order, transform is a non-decreasing '
+                         'right-closed step function on probes (boundaries, nextafter neighbours, midpoints, +-1e300), fitted carver groups contiguous.'),
+ 'C04': dict(level='other', P=[], R=['rtc.battery_C04'],
+             explanation='BOUNDED: for every fitted object (all discretizer classes, carvers, objects rebuilt from JSON, re-indexed frames) and every training row the output is the label of '
+                         'the unique group containing the value; distinct groups have distinct labels; float labels are ranks; missing-value handling per dropna.'),
+ 'C05': dict(level='other', P=[], R=['rtc.battery_C05'],
+             explanation='BOUNDED: transform of unseen data (finite numbers far outside / at the edges of the training range, unseen categories with and without default group, missing values '
+                         'where none were seen, empty and single-row frames) either raises AssertionError or returns fitted labels only; no other exception type.'),
+ 'C06': dict(level='other', P=[], R=['rtc.battery_C06'],
+             explanation='BOUNDED: to_json is json-serialisable; the reloaded object gives the same transform output or the same rejection on train / dev / shifted / unseen / float32 frames, '
+                         'the same summary, and re-serialises to the same JSON.'),
+ 'C07': dict(level='other', P=[], R=['rtc.battery_C07'],
+             explanation='BOUNDED: fit_transform == fit;transform, row-wise purity (subset, permutation, three re-indexings), repeatability, fitted state unchanged by transform, index/columns '
+                         'kept, non-feature columns untouched, caller data unmodified with copy=True.'),
+ 'C08': dict(level='other', P=[GL_ALL], R=['rtc.battery_C08'],
+             explanation='PROVED: every GroupedList operation preserves the ordered-partition invariant (so any values_orders entry built through them is well formed). BOUNDED: fit completes or '
+                         'raises AssertionError; afterwards all per-feature attributes have exactly the kept features as keys, orders are well formed and cover every training value, dropped '
+                         'features pass through transform, summary/history do not raise.'),
+ 'C16': dict(level='other', P=[], R=['rtc.battery_C16'],
+             explanation='BOUNDED: summary lists exactly the kept features; qualitative rows partition the known values with the label transform outputs; one row per quantitative group with NaN '
+                         'in the group it was merged into; summary(f) only rows of f; history holds raw distribution + tested combinations with measure, last viable one = fitted grouping.'),
  'C13': dict(level='proof', P=[GL_ALL], R=['rtc.c13_grouped_list'],
              explanation='GroupedList: representation invariant WF established by the three constructors and preserved by every mutating method, exact effect of each '
                          'operation on the abstract view (ordered leader -> members), observers equal to their definition over the view: proved for all inputs by engine P '
